@@ -53,6 +53,16 @@ Section Generic.
     | S n' => SBin tk B U A t lv o (chain n') [] [] (SNum tk B U A x a)
     end.
 
+  (* the tree that leans to the left: ((x o x) o x) o ... *)
+  Fixpoint left_tree (n : nat) : expr :=
+    match n with
+    | O => EAtom B U A a
+    | S n' => EBin B U A o (left_tree n') (EAtom B U A a)
+    end.
+
+  Lemma chain_erase n : erase (chain n) = left_tree n.
+  Proof. induction n as [|n IH]; [reflexivity|]. cbn [chain ExprParserProofs.erase left_tree]. rewrite IH. reflexivity. Qed.
+
   Lemma chain_ends n : ends_name (chain n) = false.
   Proof. destruct n; reflexivity. Qed.
 
